@@ -447,6 +447,23 @@ func runC02(r *Rand, tier string, o *Out) {
 			o.Fail("dynamic value does not round-trip: long "+kind, fmt.Sprintf("val.read (%d bytes of %s) => %s…", size, kind, tail2(res, 80)))
 		}
 	}
+	// several opaque values of one small signature whose only member is a dynamic value, side by side in one list:
+	// each keeps its own content (the nested values often have the same signature and other contents)
+	for i := 0; i < 60; i++ {
+		st := parseSigT([]string{"(m)", "(m)<Box,v>", "((m))", "(m)<Opt<T>,value>"}[r.Intn(4)])
+		g := &gval{kind: "L"}
+		for j := 0; j < 2+r.Intn(3); j++ {
+			g.elems = append(g.elems, &gval{kind: "O", sig: st, tv: genTVal(r, st, 1)})
+		}
+		enc := g.encode()
+		tail := r.Bytes(r.Intn(3))
+		res := o.Do("P", "val.read "+hx(append(append([]byte{}, enc...), tail...)), true)
+		want := fmt.Sprintf("ok %s rest=%d re=%s", g.render(), len(tail), hx(enc))
+		o.Count("val:one-member-values-side-by-side")
+		if res != want {
+			o.Fail("dynamic value does not round-trip: values of one signature side by side", fmt.Sprintf("val.read %s => %s", hx(enc), tail2(res, 120)))
+		}
+	}
 	for i := 0; i < n; i++ {
 		switch k := r.Intn(100); {
 		case k < 45: // dynamic value trees: decode = original, exact consumption, identical re-encoding
@@ -624,6 +641,18 @@ func c03CaseV(r *Rand, o *Out, t *sigT, v *tval) {
 	res = o.Do("P", "rd.read "+hx([]byte(sig))+" "+hx(append(append([]byte{}, enc...), tail...)), true)
 	if res != fmt.Sprintf("ok %s rest=%d", hx(enc), len(tail)) {
 		o.Fail("signature-driven reader does not return the value's bytes: "+readerWhy(t), fmt.Sprintf("rd.read %s %s => %s", sig, hx(enc), res))
+	}
+	// 2a. … and only those: the same bytes without the last one, or cut a few bytes earlier, are not accepted
+	if len(enc) > 0 && r.Chance(30) {
+		cut := len(enc) - 1
+		if r.Bool() && len(enc) > 3 {
+			cut = len(enc) - 1 - r.Intn(3)
+		}
+		res = o.Do("P", "rd.read "+hx([]byte(sig))+" "+hx(enc[:cut]), true)
+		if strings.HasPrefix(res, "ok") {
+			o.Fail("signature-driven reader accepts fewer bytes than the value has: "+readerWhy(t), fmt.Sprintf("rd.read %s %s (of %s) => %s", sig, hx(enc[:cut]), hx(enc), res))
+		}
+		o.Count("case:reader-given-less")
 	}
 	// 2b. a dynamic value directly inside a dynamic value: every level keeps its signature prefix in what
 	//     the reader returns (NewValue normalises that nesting, the reader must not)
